@@ -215,9 +215,9 @@ def build_traces(cases, results, tag):
 
 
 def validate(traces, timeout=3000):
-    return tlc.validate_traces("TraceC08", "TraceC08_run.cfg",
-                               [{"id": t["id"], "init": t["init"], "events": t["events"]} for t in traces],
-                               extra_files={"TraceC08_run.cfg": _cfg(TRACE_CFG)}, timeout=timeout, chunk=3000)
+    from harness import c08_batch
+    return c08_batch.validate("TraceC08", "TraceC08_run.cfg", _cfg(TRACE_CFG),
+                              [{"id": t["id"], "init": t["init"], "events": t["events"]} for t in traces], timeout=timeout)
 
 
 def selftest():
@@ -343,7 +343,7 @@ def main(chk, replay=None):
                 "non-trivial = in-scope case whose lexed menu differs from the menu of the same bare directory"
                 % (handler_lists, n_scope, len(cases)),
         "samples": samples, "checker_cmd": res["cmd"] + " ; " + blk["cmd"] + " ; " + tv["cmd"],
-        "trace_states": tv["states"], "in_scope": n_scope, "input_classes": by_cls, "quirks_modelled": QUIRKS,
+        "trace_states": tv["states"], "trace_chunks_retried": tv["retried"], "in_scope": n_scope, "input_classes": by_cls, "quirks_modelled": QUIRKS,
         "bindings": ["B2 every TLC-evaluated directory replayed on disk through World.request", "B3 TraceC08"],
     }
     return chk.finish(cov, [
